@@ -296,7 +296,7 @@ fn gen_next_config(ch: &mut Chooser, kind: Kind, cur: (usize, usize, usize)) -> 
         _ => {
             // same counts, other shard size (shrink / grow of blocks, partial last block)
             let (k, r, _) = cur;
-            (k, r, gen_bytes(ch, if k + r > 200 { 66 } else { 322 }))
+            (k, r, gen_bytes(ch, if k + r > 200 { 66 } else if k + r > 8 { 321 } else { 322 }))
         }
     }
 }
@@ -616,7 +616,7 @@ pub fn run_encoder(ch: &mut Chooser, ctx: &mut Ctx) {
     };
 
     // mostly short histories; one in twenty is long (many consecutive rounds and resets on one object)
-    let n_ops = if ch.chance("ops.long", 1, 20) { 60 + ch.pick_usize("ops.many", 240) } else { 4 + ch.pick_usize("ops", 40) };
+    let n_ops = if cfg.0 + cfg.1 <= 64 && cfg.2 <= 2048 && ch.chance("ops.long", 1, 20) { 60 + ch.pick_usize("ops.many", 240) } else { 4 + ch.pick_usize("ops", 40) };
     for op_no in 0..n_ops {
         if ctx.stop {
             return;
@@ -624,7 +624,7 @@ pub fn run_encoder(ch: &mut Chooser, ctx: &mut Ctx) {
         let (k, _r, b) = st.cfg;
         let fill = st.shards.len();
         let fill_class = if fill == 0 { 0 } else if fill == k { 3 } else if fill + 1 == k { 2 } else { 1 };
-        let op = ch.weighted("enc.op", &[30, 6, 22, 8, 6, 5, 4]);
+        let op = ch.weighted("enc.op", &[30, 6, 22, 8, 6, 5, 4, 1]);
         ctx.hash.feed_u64(op as u64);
         ctx.distinct(&[0xE0, st.kind.layer as u64, st.kind.engine as u64, fill_class, op as u64, u64::from(st.failed_round), u64::from(st.has_history)]);
         match op {
@@ -844,6 +844,38 @@ pub fn run_encoder(ch: &mut Chooser, ctx: &mut Ctx) {
                     since_reset: 0,
                 };
             }
+            // ---------------------------------------------------- a shard whose as_ref() is not pure (ends the history)
+            7 => {
+                let first = gen_shard(st.data_seed, 0, fill, b);
+                let later_len = [b + 2, b.saturating_sub(2), 0, b, 1][ch.pick_usize("enc.flaky.len", 5)];
+                let later = vec![0x3Cu8; later_len];
+                let flaky = Flaky::new(&first, &later);
+                let res = ctx.guarded(true, || obj.add_flaky(&flaky));
+                ctx.count("fault.F10.impure_as_ref");
+                let res = match res {
+                    Ok(v) => v,
+                    Err(msg) => {
+                        report_panic(ctx, &st.kind.name(), "add", &format!("add_original_shard(shard whose as_ref() returns {b} bytes first and {later_len} bytes later)"), st.failed_ever, &msg);
+                        return;
+                    }
+                };
+                ev!(ctx, "#{op_no} add_original_shard(impure as_ref: {b} then {later_len} bytes) -> {res:?}");
+                let mut adm = vec![];
+                if fill == k {
+                    adm.push(Error::TooManyOriginalShards { original_count: k });
+                }
+                if later_len != b {
+                    adm.push(Error::DifferentShardSize { shard_bytes: b, got: later_len });
+                }
+                if let Err(e) = &res {
+                    if !adm.contains(e) {
+                        ctx.viol(&verdict_props("add", st.failed_ever), "verdict", format!("verdict/enc.add-impure/{}", err_name(e)), format!("{}{:?}.add_original_shard(shard whose as_ref() returns {b} bytes first and {later_len} bytes later) returned Err({e:?}), which describes neither slice; truthful errors: {adm:?}", st.kind.name(), st.cfg), true);
+                    }
+                } else if fill == k {
+                    ctx.viol(&verdict_props("add", st.failed_ever), "verdict", "verdict/enc.add-impure/Ok".into(), format!("{}{:?}.add_original_shard on a full encoder returned Ok", st.kind.name(), st.cfg), true);
+                }
+                return;
+            }
             // ---------------------------------------------------- static probes
             _ => {
                 if static_probe(ch, ctx, st.kind, false) {
@@ -860,6 +892,9 @@ pub fn run_encoder(ch: &mut Chooser, ctx: &mut Ctx) {
 struct NullEnc;
 impl DynEncoder for NullEnc {
     fn add(&mut self, _: &[u8]) -> Result<(), Error> {
+        unreachable!()
+    }
+    fn add_flaky(&mut self, _: &Flaky) -> Result<(), Error> {
         unreachable!()
     }
     fn encode(&mut self) -> Result<reed_solomon_simd::EncoderResult<'_>, Error> {
@@ -1216,7 +1251,7 @@ pub fn run_decoder(ch: &mut Chooser, ctx: &mut Ctx) {
     let Some(mut st) = DecState::fresh(ch, ctx, kind, cfg, dec_need(kind, cfg), false) else { return };
 
     // mostly short histories; one in twenty is long (many consecutive rounds and resets on one object)
-    let n_ops = if ch.chance("ops.long", 1, 20) { 60 + ch.pick_usize("ops.many", 240) } else { 4 + ch.pick_usize("ops", 40) };
+    let n_ops = if cfg.0 + cfg.1 <= 64 && cfg.2 <= 2048 && ch.chance("ops.long", 1, 20) { 60 + ch.pick_usize("ops.many", 240) } else { 4 + ch.pick_usize("ops", 40) };
     for op_no in 0..n_ops {
         if ctx.stop {
             return;
@@ -1224,19 +1259,33 @@ pub fn run_decoder(ch: &mut Chooser, ctx: &mut Ctx) {
         let (k, r, b) = st.cfg;
         let have = st.n_o + st.n_r;
         let fill_class = if have == 0 { 0 } else if have >= k { 3 } else if have + 1 == k { 2 } else { 1 };
-        let op = ch.weighted("dec.op", &[30, 5, 5, 5, 22, 7, 5, 5, 4]);
+        let op = ch.weighted("dec.op", &[30, 5, 5, 5, 22, 7, 5, 5, 4, 1]);
         ctx.hash.feed_u64(op as u64);
         ctx.distinct(&[0xD0, st.kind.layer as u64, st.kind.engine as u64, fill_class, op as u64, u64::from(st.failed_round), u64::from(st.has_history), u64::from(st.n_o == k)]);
         match op {
             // ---------------------------------------------------- add valid shards (batch)
             0 => {
                 // how many: one / up to exactly k / surplus / everything of one sort
-                let target = match ch.weighted("dec.add.n", &[3, 3, 1, 1]) {
+                let add_mode = ch.weighted("dec.add.n", &[3, 3, 1, 1, 2]);
+                // mode 4: a whole aligned block of one kind arrives (what a node or a rack holds): blocks of
+                // 8..64 consecutive indexes, so that received sets are unions of aligned runs
+                let mut block: Option<(bool, usize, usize)> = None;
+                if add_mode == 4 {
+                    let is_rec = ch.chance("dec.block.isrec", 1, 2);
+                    let count = if is_rec { r } else { k };
+                    let w = 8usize << ch.pick("dec.block.w", 4);
+                    let nblocks = count.div_ceil(w);
+                    let bidx = ch.pick_usize("dec.block.idx", nblocks);
+                    block = Some((is_rec, bidx * w, ((bidx + 1) * w).min(count)));
+                }
+                let target = match add_mode {
                     0 => 1,
                     1 => k.saturating_sub(have).max(1),
                     2 => k.saturating_sub(have) + 1 + ch.pick_usize("dec.add.surplus", r),
+                    4 => block.map_or(1, |b| b.2 - b.1),
                     _ => 1 + ch.pick_usize("dec.add.cnt", k + r),
                 };
+                let mut block_next = block.map_or(0, |b| b.1);
                 let rec_bias = ch.pick("dec.add.recbias", 5); // 0: originals first .. 4: recovery first
                 for _ in 0..target {
                     let missing_o = k - st.n_o;
@@ -1244,17 +1293,33 @@ pub fn run_decoder(ch: &mut Chooser, ctx: &mut Ctx) {
                     if missing_o + missing_r == 0 {
                         break;
                     }
-                    let is_rec = if missing_o == 0 {
-                        true
-                    } else if missing_r == 0 {
-                        false
+                    let (is_rec, index) = if let Some((brec, _, bend)) = block {
+                        // next not-yet-given index of the block
+                        let given = if brec { &st.given_r } else { &st.given_o };
+                        while block_next < bend && given[block_next] {
+                            block_next += 1;
+                        }
+                        if block_next >= bend {
+                            break;
+                        }
+                        block_next += 1;
+                        (brec, block_next - 1)
                     } else {
-                        ch.pick("dec.add.isrec", 4) < rec_bias
+                        let is_rec = if missing_o == 0 {
+                            true
+                        } else if missing_r == 0 {
+                            false
+                        } else {
+                            ch.pick("dec.add.isrec", 4) < rec_bias
+                        };
+                        let (given, count) = if is_rec { (&st.given_r, r) } else { (&st.given_o, k) };
+                        // n-th missing index
+                        let nth = ch.pick_usize("dec.add.nth", if is_rec { missing_r } else { missing_o });
+                        (is_rec, (0..count).filter(|i| !given[*i]).nth(nth).unwrap())
                     };
-                    let (given, count) = if is_rec { (&st.given_r, r) } else { (&st.given_o, k) };
-                    // n-th missing index
-                    let nth = ch.pick_usize("dec.add.nth", if is_rec { missing_r } else { missing_o });
-                    let index = (0..count).filter(|i| !given[*i]).nth(nth).unwrap();
+                    if block.is_some() {
+                        ctx.count("probe.aligned_block_delivery");
+                    }
                     let data = if is_rec { st.stripe.recovery[index].clone() } else { st.stripe.originals[index].clone() };
                     let mut acc = AllocStats::default();
                     let res = ctx.guarded(true, || meas(&mut acc, || if is_rec { obj.add_recovery(index, &data) } else { obj.add_original(index, &data) }));
@@ -1472,6 +1537,37 @@ pub fn run_decoder(ch: &mut Chooser, ctx: &mut Ctx) {
                 let Some(s) = DecState::fresh(ch, ctx, new_kind, next, grow(held, need), recycled) else { return };
                 st = s;
             }
+            // ---------------------------------------------------- a shard whose as_ref() is not pure (ends the history)
+            9 => {
+                let is_rec = ch.chance("dec.flaky.isrec", 1, 2);
+                let count = if is_rec { r } else { k };
+                let missing: Vec<usize> = (0..count).filter(|i| !(if is_rec { st.given_r[*i] } else { st.given_o[*i] })).collect();
+                if missing.is_empty() {
+                    continue;
+                }
+                let index = missing[ch.pick_usize("dec.flaky.idx", missing.len())];
+                let first = if is_rec { st.stripe.recovery[index].clone() } else { st.stripe.originals[index].clone() };
+                let later_len = [b + 2, b.saturating_sub(2), 0, b, 1][ch.pick_usize("dec.flaky.len", 5)];
+                let later = vec![0x3Cu8; later_len];
+                let flaky = Flaky::new(&first, &later);
+                let res = ctx.guarded(true, || obj.add_flaky(is_rec, index, &flaky));
+                ctx.count("fault.F10.impure_as_ref");
+                let res = match res {
+                    Ok(v) => v,
+                    Err(msg) => {
+                        report_panic(ctx, &st.kind.name(), "add", &format!("add_{}_shard({index}, shard whose as_ref() returns {b} bytes first and {later_len} bytes later)", if is_rec { "recovery" } else { "original" }), st.failed_ever, &msg);
+                        return;
+                    }
+                };
+                ev!(ctx, "#{op_no} add_{}_shard({index}, impure as_ref: {b} then {later_len} bytes) -> {res:?}", if is_rec { "recovery" } else { "original" });
+                if let Err(e) = &res {
+                    let adm = if later_len != b { vec![Error::DifferentShardSize { shard_bytes: b, got: later_len }] } else { vec![] };
+                    if !adm.contains(e) {
+                        ctx.viol(&verdict_props("add", st.failed_ever), "verdict", format!("verdict/dec.add-impure/{}", err_name(e)), format!("{}{:?}.add_{}_shard({index}, shard whose as_ref() returns {b} bytes first and {later_len} bytes later) returned Err({e:?}), which describes neither slice; truthful errors: {adm:?}", st.kind.name(), st.cfg, if is_rec { "recovery" } else { "original" }), true);
+                    }
+                }
+                return;
+            }
             _ => {
                 if static_probe(ch, ctx, st.kind, true) {
                     return;
@@ -1486,6 +1582,9 @@ pub fn run_decoder(ch: &mut Chooser, ctx: &mut Ctx) {
 
 struct NullDec;
 impl DynDecoder for NullDec {
+    fn add_flaky(&mut self, _: bool, _: usize, _: &Flaky) -> Result<(), Error> {
+        unreachable!()
+    }
     fn add_original(&mut self, _: usize, _: &[u8]) -> Result<(), Error> {
         unreachable!()
     }
